@@ -950,7 +950,7 @@ pub fn run(a: &Args, rep: &mut Report) {
     trapemu::install();
     let r = Rng::derive(a.seed, "c16", a.shard);
     let mut t = T { rep, r };
-    let n = a.budget(3_000, 1_500_000);
+    let n = a.budget(12_000, 1_500_000);
     for i in 0..n {
         cr_tests(&mut t);
         cr3_tests(&mut t);
